@@ -18,7 +18,7 @@ ID = "C06"
 TITLE = "Returned matchings certify the reported bottleneck/Wasserstein distance"
 CASE_TIMEOUT_S = 120.0
 PLAN = {
-    "quick": {"runs": 6400, "chunk": 50, "shrink_s": 30.0},
+    "quick": {"runs": 12800, "chunk": 50, "shrink_s": 30.0},
     "thorough": {"budget_s": 600.0, "chunk": 40, "shrink_s": 60.0},
 }
 RULE = ("case = pair of finite generated diagrams (sizes 0..40 quick / 0..150 thorough; ties, repeated, shared and "
